@@ -4,7 +4,8 @@ checks' quick tier, undo it (git checkout -- .), and write seeded/<id>/meta.json
 import json, os, subprocess, sys
 ROOT = os.path.dirname(os.path.dirname(os.path.abspath(__file__)))
 plan = json.load(open(os.path.join(ROOT, "seeded", "plan.json")))
-only = sys.argv[1:]
+meta_only = "--meta-only" in sys.argv      # refresh the confirmation fields of existing meta.json files, run nothing
+only = [a for a in sys.argv[1:] if not a.startswith("--")]
 if subprocess.run(["git", "-C", "/repo", "status", "--porcelain", "--untracked-files=no"], capture_output=True, text=True).stdout.strip():
     sys.exit("/repo has local changes")
 summary = {}
@@ -13,7 +14,12 @@ for sid, p in plan.items():
         continue
     d = os.path.join(ROOT, "seeded", sid)
     results = {}
-    for chk in p["checks"]:
+    mp = os.path.join(d, "meta.json")
+    if meta_only:
+        if not os.path.exists(mp):
+            continue
+        results = json.load(open(mp))["checks"]
+    for chk in ([] if meta_only else p["checks"]):
         r = subprocess.run([os.path.join(ROOT, "tools", "try_patch.sh"), os.path.join(d, "patch.diff"), chk], capture_output=True, text=True)
         lines = [l for l in r.stdout.splitlines() if l.startswith(("VIOLATION", "TOOL-ERROR"))]
         results[chk] = {"quick_exit": r.returncode, "detected": r.returncode == 1, "first_line": lines[0] if lines else ""}
